@@ -85,6 +85,14 @@ Section Auto.
     - destruct (final s); [inversion H; subst; cbn; lia|].
       destruct (delta s c) as [s' e']. apply IH in H. cbn [length]. lia.
   Qed.
+
+  (* a run that starts in a state that is not final consumes at least one byte before it settles *)
+  Lemma arun_progress : forall d s acc n f k e,
+    final s = None -> arun s acc n d = ASettled f k e -> n < k.
+  Proof.
+    intros d s acc n f k e Hf H. destruct d as [|c d]; cbn [arun] in H; rewrite Hf in H; [discriminate|].
+    destruct (delta s c) as [s' e']. apply arun_consumed in H. lia.
+  Qed.
 End Auto.
 
 Arguments AAgain {eff fin}.
